@@ -539,7 +539,41 @@ func (r *relay) sendWindowUpdates(f *http2.DataFrame) error {
 func (r *relay) decodeFull(data []byte) ([]hpack.HeaderField, error) {
 	r.decoderMu.Lock()
 	defer r.decoderMu.Unlock()
+
+	// A header block may begin with two dynamic table size updates: the smallest size and the
+	// final one, when the limit changed more than once since the last block (RFC 7541, 4.2).
+	// The decoder refuses the second one while its table holds entries, so the updates at the
+	// beginning of a block are applied here.
+	for len(data) > 0 && data[0]&0xe0 == 0x20 {
+		size, n := tableSizeUpdate(data)
+		if n == 0 {
+			break // malformed: left to the decoder, which reports it
+		}
+		r.decoder.SetMaxDynamicTableSize(size)
+		data = data[n:]
+	}
+
 	return r.decoder.DecodeFull(data)
+}
+
+// tableSizeUpdate reads the dynamic table size update (an integer with a 5-bit prefix, RFC 7541
+// 5.1 and 6.3) at the beginning of b and returns the size and the number of octets it takes up,
+// 0 when it is incomplete or does not fit 32 bits.
+func tableSizeUpdate(b []byte) (size uint32, n int) {
+	v := uint64(b[0] & 0x1f)
+	if v < 0x1f {
+		return uint32(v), 1
+	}
+	for i, shift := 1, uint(0); i < len(b) && shift <= 28; i, shift = i+1, shift+7 {
+		v += uint64(b[i]&0x7f) << shift
+		if b[i]&0x80 == 0 {
+			if v > 1<<32-1 {
+				return 0, 0
+			}
+			return uint32(v), i + 1
+		}
+	}
+	return 0, 0
 }
 
 func (r *relay) encodeFull(headers []hpack.HeaderField) ([]byte, error) {
